@@ -80,7 +80,8 @@ class Rec:
             if key not in self.fails:
                 ev = lambda x: x() if callable(x) else x  # noqa: E731  (rendered lazily, on failure only)
                 self.fails[key] = dict(function=function, clause=clause, input=ev(input), expected=ev(expected),
-                                       observed=ev(observed), key=key, replay=replay)
+                                       observed=ev(observed), key=key,
+                                       replay=dict(replay, key=key) if isinstance(replay, dict) else replay)
         return cond
 
     def count(self, name, n=1):
@@ -452,6 +453,15 @@ def enum_tagged(cls, n, max_edges, min_edges=0):
             yield dict(cls=cls, weighted=False, ops=[["n", i] for i in range(n)] + [["e", e] for e in es])
 
 
+def with_readd(spec):
+    """The same history with its first hyperedge added once more, members in reverse order."""
+    e = next(op[1] for op in spec["ops"] if op[0] == "e")
+    cls = spec["cls"]
+    r = (e[::-1] if cls == "Hypergraph" else [e[0][::-1], e[1][::-1]] if cls == "DirectedHypergraph" else
+         [e[0], e[1][::-1]] if cls == "TemporalHypergraph" else [e[0][::-1], e[1]])
+    return dict(spec, ops=spec["ops"] + [["e", r]])
+
+
 def random_spec(rng, cls):
     n = rng.randint(1, 7)
     kind = rng.choice(["0..n-1", "ints", "str"])
@@ -573,6 +583,15 @@ def run(ctx):
                                     f"{'times' if cls[0] == 'T' else 'layers'}, <=3 hyperedges of size 1..3 ({n}) x "
                                     f"{len(F4)} filters")
 
+    # --- small histories that add their first hyperedge twice (every class)
+    n = 0
+    for gen in (enum_hypergraphs(3, 2, min_edges=1), enum_directed(3, 2, min_edges=1),
+                enum_tagged("TemporalHypergraph", 3, 2, min_edges=1),
+                enum_tagged("MultiplexHypergraph", 3, 2, min_edges=1)):
+        n += _run_jobs(ctx, total, [with_readd(s) for s in gen], F4)
+    ctx.exhaustive_parts.append(f"all four classes: every history on 3 nodes with 1..2 hyperedges followed by a second "
+                                f"add_edge of the first hyperedge ({n}) x {len(F4)} filters")
+
     # --- random histories
     rng = random.Random(ctx.seed * 7919 + 8)
     F6 = filters_for(5)
@@ -594,8 +613,14 @@ def replay(data):
         filters = [tuple(flt) if flt else None]
     rec = Rec()
     check_case(rec, spec, filters)
-    if not rec.fails:
-        return True, f"all C08 clauses hold on {spec['cls']} history {spec['ops']} with filter {flt}"
-    lines = [f"{k}: expected {f['expected']!r}, observed {f['observed']!r} ({f['input'].get('call', '')})"
-             for k, f in sorted(rec.fails.items())]
-    return False, f"{spec['cls']} history {spec['ops']}, filter {flt}: " + " ;; ".join(lines)
+    key = data.get("key")
+    where = f"{spec['cls']} history {spec['ops']}, filter {flt}"
+    others = sorted(k for k in rec.fails if k != key)
+    also = (f" [other clauses failing on this input: {others}]" if others else "")
+    if key is None:
+        key = others[0] if others else None
+    if key not in rec.fails:
+        return True, f"clause '{key}' holds on {where} ({sum(rec.evals.values())} clause evaluations){also}"
+    f = rec.fails[key]
+    return False, (f"{key}: expected {f['expected']!r}, observed {f['observed']!r} "
+                   f"({f['input'].get('call', '')}, node {f['input'].get('node')!r}) on {where}{also}")
